@@ -262,7 +262,9 @@ impl JxlImageBuilder {
             }
         };
 
-        while !image.inner.end_of_image {
+        // Keep reading after the last frame: boxes that follow the codestream (Exif, XML, ...) belong to
+        // the image as well, however the reader happens to split the stream.
+        loop {
             let count = reader.read(&mut buf[buf_valid..])?;
             if count == 0 {
                 break;
